@@ -37,8 +37,8 @@ def ck(prog):
     return d
 
 
-def r1_engine(ctx, prog):
-    r = ctx.rule('C08.R1', 'the update engine reaches the attribute setter only for operation/footnote combinations PKCS#11 allows', floor=300, engine='E1+E3 finite-domain')
+def r1_engine(ctx, prog, rule_id='C08.R1'):
+    r = ctx.rule(rule_id, 'the update engine reaches the attribute setter only for operation/footnote combinations PKCS#11 allows', floor=300, engine='E1+E3 finite-domain')
     f = prog.fn('P11Attribute::update')
     ctx.analysed(f)
     c = ck(prog)
